@@ -357,3 +357,15 @@ func vResolveVar() (int, []string) {
 
 //@ bounded vResolveVar var() substitution over every assignment of 3 custom properties to 13 value forms (all reference graphs incl. cycles) x 2 referencing values: terminates, leaves no var(), equals textual substitution when acyclic
 //@   props C08 C01
+
+// ---------------------------------------------------------------------------
+// C01: the document root. Whatever the parser returns before the root element (a doctype,
+// comments), the Root of a successfully loaded document is an element node — the rest of the
+// pipeline (style, box building) starts from it.
+//@ extern golang.org/x/net/html.ParseWithOptions
+//@   ensures result1 == nil ==> result0 != nil
+
+//@ func NewHTML
+//@   props C01
+//@   modifies anything
+//@   ensures[root-is-element] result1 == nil ==> result0 != nil && result0.Root != nil && result0.Root.Type == html.ElementNode
